@@ -27,7 +27,7 @@ CLAIMS = {
    text='Block contracts on the engine\'s address->byte map construction (per line) and on the window emission loop: offset a-start '
         'holds the assembled byte or the fill value, explicit windows have length end-start+1, the default end is the highest emitted '
         'address; plus contracts on Assembler.__init__ and the CLI entry (window/fill parameters reach the engine unchanged).',
-   note='The closed form of the map over all lines follows from the per-line block contract by induction (not machine-checked); '
+   note='The closed form of the map over all lines follows from the per-line block contract by induction (not machine-checked); which lines take part is under contract (exactly the compilable lines, then the predefined data blocks appended) and the list is audited to be sorted by address before the second pass; '
         'file writing itself (open/write) is outside the contract; AssemblerModel construction is assumed.'),
  'C04': dict(tech='contract-based deductive verification (pyvc + z3): loop invariant of the engine\'s second pass + AST audit of its sortedness precondition',
    text='Block contract with an inductive invariant on the real second-pass loop: if it completes, all byte-producing lines '
